@@ -9,6 +9,16 @@
 //                                  rkind: val|exc|drop|dtor|final|none
 //   builds the world: the constructing thread runs its constructor up to the first scheduling point
 // other step labels: Action(thread[,thread])   threads: "r" (resolver), the names in H
+// BeginWait(h, form): the blocking waiter through one of shared_future's own blocking entry points
+//   wait     f.wait()                            the call returns the value / throws
+//   fwait    f.force_wait()   (coroutine mode)   the call returns the value / throws
+//   join     f.join()                            throws as wait(); "same as wait()": a returned reference is used
+//                                                when join() has one, otherwise (as found: no return statement,
+//                                                the deduced type is void) the value is read through value()
+//   syncval  f.sync(); f.value()                 sync() hands nothing over, the result is read afterwards
+//   fsync    f.force_sync()   (coroutine mode)   nothing handed over, nothing read: observation "synced"
+//   "coroutine mode": the call is made under coro_queue::install_queue_and_call (coro_queue::is_active() is
+//   true, the situation the force_ forms exist for; no coroutine frame is allocated)
 // rounds: ReArmShl(h, kind|"ready") = `f << fn` through a handle of the resolved state; ReArmAssign(h, kind) =
 //   `f = shared_future(fn)` by the sole holder (the new state is built in a spare slot, copy-assigned, the
 //   spare handle destroyed; the probe is re-bound to the new state as soon as its constructor is parked at
@@ -23,6 +33,7 @@
 //   heap  operator new minus operator delete calls made on the scenario's threads
 //         (= live shared state + live coroutine frames)
 //   cref  the frame of the thread's coroutine (it holds a handle) exists
+//   threw whether the thread's blocking call of this round left by an exception ("none": it has not returned)
 //   one   every live handle refers to the state the probe was bound to when the first handle appeared
 //         (get_promise() on an initialised object must keep the state: the use count, the chain and the
 //         stored result in the projection are always those of that first state)
@@ -139,12 +150,18 @@ struct Rec {
     int resumes = 0;
 };
 
+// records what `get` hands over; returns whether it left by an exception
 template <typename F>
-static void observe(Rec &r, F &&get) {
+static bool observe(Rec &r, F &&get) {
     try {
-        Counted &c = get();
-        r.tag = "val";
-        r.payload = pname(c.id);
+        if constexpr (std::is_void_v<decltype(get())>) {
+            get();      // a call that hands over nothing when it returns normally: the record is left alone
+        } else {
+            Counted &c = get();
+            r.tag = "val";
+            r.payload = pname(c.id);
+        }
+        return false;
     } catch (const TestExc &e) {
         r.tag = "exc";
         r.payload = pname(e.who);
@@ -155,6 +172,7 @@ static void observe(Rec &r, F &&get) {
         r.tag = "notready";
         r.payload = "notready";
     }
+    return true;
 }
 
 struct CbAwaiter : cocls::awaiter {
@@ -196,6 +214,7 @@ struct TS {
     HSlot hs[NSLOT];
     std::string cmd, arg;
     std::string curop = "none";
+    std::string threw = "none";   // the blocking call of this round: left by an exception "yes" / "no"; "none" before it returned
     bool frame_alive = false;
     std::unique_ptr<CbAwaiter> cb;
     Heap heap;
@@ -274,6 +293,20 @@ static cocls::async<Counted> coro_gate(World &w, int id) {
 }
 static cocls::async<Counted> coro_sync(int id) {
     co_return id;
+}
+
+// shared_future::join() "for compatible API - same as wait()": future::join() returns the reference; the
+// shared_future one (shared_future.h:177-179) has no return statement, so its deduced type is void and the
+// value has to be read through value() after it has returned.  Both shapes are accepted.
+template <typename S>
+static bool join_form(Rec &rec, S &sf) {
+    if constexpr (std::is_void_v<decltype(sf.join())>) {
+        if (observe(rec, [&] { sf.join(); })) return true;
+        observe(rec, [&]() -> Counted & { return sf.value(); });
+        return false;
+    } else {
+        return observe(rec, [&]() -> Counted & { return sf.join(); });
+    }
 }
 
 // ---- thread bodies -----------------------------------------------------------------------------
@@ -359,7 +392,30 @@ static void handle_body(World &w, TS &me) {
             me.curop = "bl";
             SF &sf = *me.first();
             Rec &rec = w.recs.at(me.name + ".bl");
-            observe(rec, [&]() -> Counted & { return sf.wait(); });
+            const std::string form = me.arg;
+            bool threw = false;     // did the blocking call itself leave by an exception
+            if (form == "wait") {
+                threw = observe(rec, [&]() -> Counted & { return sf.wait(); });
+            } else if (form == "fwait") {
+                threw = cocls::coro_queue::install_queue_and_call([&] {
+                    return observe(rec, [&]() -> Counted & { return sf.force_wait(); });
+                });
+            } else if (form == "join") {
+                threw = join_form(rec, sf);
+            } else if (form == "syncval") {
+                threw = observe(rec, [&] { sf.sync(); });
+                observe(rec, [&]() -> Counted & { return sf.value(); });
+            } else if (form == "fsync") {
+                threw = cocls::coro_queue::install_queue_and_call([&] {
+                    return observe(rec, [&] { sf.force_sync(); });
+                });
+                rec.tag = "synced";
+                rec.payload = "synced";
+            } else {
+                rec.tag = "bad";
+                rec.payload = "unknown-form";
+            }
+            me.threw = threw ? "yes" : "no";
             rec.resumes++;
         } else if (cmd == "co") {
             me.curop = "co";
@@ -613,7 +669,7 @@ static J project(World &w) {
     for (auto &kv : w.ts) for (auto &hs : kv.second->hs)
         if (hs.used && (hs.get()->*SProbe::ptr_mp()) && static_cast<Base *>((hs.get()->*SProbe::ptr_mp()).get()) != w.base) one = false;
     m.set("one", one);
-    J pend = J::map(), nh = J::map(), cref = J::map(), resumes = J::map(), seen = J::map();
+    J pend = J::map(), nh = J::map(), cref = J::map(), resumes = J::map(), seen = J::map(), threw = J::map();
     long heap = heap_balance(w);
     pend.set("r", pend_of(w, "r"));
     for (auto &kv : w.ts) {
@@ -621,6 +677,7 @@ static J project(World &w) {
         pend.set(kv.first, pend_of(w, kv.first));
         nh.set(kv.first, t.count());
         cref.set(kv.first, t.frame_alive ? 1 : 0);
+        threw.set(kv.first, t.threw);
     }
     for (auto &kv : w.recs) {
         resumes.set(kv.first, kv.second.resumes);
@@ -635,6 +692,7 @@ static J project(World &w) {
     m.set("heap", heap);
     m.set("resumes", resumes);
     m.set("seen", seen);
+    m.set("threw", threw);
     return m;
 }
 
@@ -734,6 +792,7 @@ static void run(const Scenario &sc, Reporter &rep) {
                 w.rkind = st.sarg(1) == "ready" ? "none" : st.sarg(1);
                 w.rebind = st.name == "ReArmAssign";
                 for (auto &kv : w.recs) kv.second = Rec();
+                for (auto &kv : w.ts) kv.second->threw = "none";
             }
         }
         w.sched.step(t);
